@@ -141,7 +141,7 @@ func (ev *evidence) write(rc *runCtx) {
 		"wall_s":      time.Since(rc.start).Seconds(),
 		"violations":  ev.Violations,
 	}
-	os.MkdirAll(filepath.Join(verifDir, "evidence"), 0o755)
+	os.MkdirAll(filepath.Join(outDir, "evidence"), 0o755)
 	data, _ := json.MarshalIndent(doc, "", " ")
-	os.WriteFile(filepath.Join(verifDir, "evidence", rc.id+".json"), data, 0o644)
+	os.WriteFile(filepath.Join(outDir, "evidence", rc.id+".json"), data, 0o644)
 }
